@@ -121,5 +121,5 @@ func VH04j_answered_unreceived() {
 	verif.Assert(sg.Done() && serr == nil, lab+"/fresh-send")
 	verif.Assert(len(transmissions(pipes, 2)) == 1, lab+"/fresh-request-not-transmitted-once")
 	verif.Reach("h04j-checked")
-	sock.Close()
+	vp.CloseCensus(sock, "C10/req/after-history")
 }
